@@ -655,17 +655,29 @@ func (c *Ctx) jsonDelims(info *types.Info) {
 	if enc == nil || dec == nil {
 		return
 	}
-	chars := func(fd *ast.FuncDecl) map[string]bool {
+	// the one-character literals of a function and its unexported helpers ('[' or "[")
+	chars := func(fi *load.FuncInfo) map[string]bool {
 		m := map[string]bool{}
-		ast.Inspect(fd.Body, func(n ast.Node) bool {
-			if bl, ok := n.(*ast.BasicLit); ok && bl.Kind == token.CHAR {
-				m[bl.Value] = true
-			}
-			return true
-		})
+		for _, body := range c.familyBodies(fi) {
+			ast.Inspect(body, func(n ast.Node) bool {
+				bl, ok := n.(*ast.BasicLit)
+				if !ok {
+					return true
+				}
+				switch bl.Kind {
+				case token.CHAR:
+					m[bl.Value] = true
+				case token.STRING:
+					if v, err := strconv.Unquote(bl.Value); err == nil && len(v) == 1 {
+						m["'"+v+"'"] = true
+					}
+				}
+				return true
+			})
+		}
 		return m
 	}
-	e, d := chars(enc.Decl), chars(dec.Decl)
+	e, d := chars(enc), chars(dec)
 	g := e["'['"] && e["','"] && e["']'"] && d["'['"] && d["']'"]
 	run.Oblige(g)
 	if !g {
@@ -1270,6 +1282,34 @@ func (c *Ctx) jsonSeparators() {
 		}
 	}
 	if len(stateNames) == 0 {
+		// a separator string that starts empty (`sep := ""; …; sep = ","`) is a third way of
+		// telling the first element; strings are outside the guarded-command evaluator, so that
+		// form is not decided (no claim) rather than reported
+		for _, st := range fi.Decl.Body.List {
+			as, ok := st.(*ast.AssignStmt)
+			if !ok || as.Tok != token.DEFINE || len(as.Lhs) != 1 || len(as.Rhs) != 1 || as.Pos() > loop.Pos() {
+				continue
+			}
+			if tv, has := info.Types[as.Rhs[0]]; has && tv.Value != nil && tv.Value.Kind() == constant.String {
+				if id, isID := as.Lhs[0].(*ast.Ident); isID {
+					assignedInLoop := false
+					ast.Inspect(loop.Body, func(m ast.Node) bool {
+						if a2, isAs := m.(*ast.AssignStmt); isAs {
+							for _, l := range a2.Lhs {
+								if lid, isL := l.(*ast.Ident); isL && info.ObjectOf(lid) == info.ObjectOf(id) {
+									assignedInLoop = true
+								}
+							}
+						}
+						return true
+					})
+					if assignedInLoop {
+						run.Count("json_separator_undecided_string_state", 1)
+						return
+					}
+				}
+			}
+		}
 		fail("state", "nothing in the loop of the writer tells the first element from the others (no flag or counter initialised before the loop and changed in it): either every element or none is preceded by a separator", loop.Pos())
 		return
 	}
